@@ -19,7 +19,6 @@ ASSUMPTIONS = ['reads the private tables _stream_control._streams and _frame_fra
 EXHAUSTIVE_GENS = ('script',)
 DECIDING_REQUIRED = ('runs_judged', 'interactions_terminated', 'tables_read', 'id_reuse_probes')
 BUDGET_S = {'quick': 100, 'thorough': 2400}
-CASE_WALL_LIMIT = {'quick': 60, 'thorough': 300}
 
 COMPLETE = ('on_complete', 'on_next_complete')
 
